@@ -102,6 +102,27 @@ def r1(ctx, prog):
             exempt = EXEMPT.get((cname.split('::')[-1], fd['n']), {})
             ctx.ob('C17.R1', '%s|reset' % short, ('reset' in exempt) or (bool(rs) and bool(refs_field(prog, rs, fq)) and calls_named(prog, rs, 'reset')),
                    'onReset() resets the children held in %s' % fd['n'], where=rs.loc(rs.body) if rs else None)
+            # ... all of them: a loop over the container that resets children ranges over the whole container (a child that was started and not reset stays finished/stopped)
+            if rs is not None and 'reset' not in exempt:
+                for g_, c_ in call_sites_named(prog, rs, 'reset'):
+                    lps = [st for st in g_.stmts if st and st['k'] in ('ForStmt', 'CXXForRangeStmt') and c_['i'] in set(g_.walk(st['i']))]
+                    for lp in lps:
+                        if lp['k'] == 'CXXForRangeStmt':
+                            whole = (g_.field_of(lp['range']) or '') == fq
+                            if (g_.field_of(lp['range']) or '') != fq:
+                                continue
+                        else:
+                            if not any(g_.stmts[x]['k'] in q.CALL_KINDS and g_.stmts[x].get('fn') == 'size' and g_.stmts[x].get('obj') is not None and g_.field_of(g_.stmts[x]['obj']) == fq
+                                       for x in g_.walk(lp['cond'])):
+                                continue
+                            is_sz = lambda sx, g_=g_: sx['k'] in q.CALL_KINDS and sx.get('fn') == 'size' and sx.get('obj') is not None and g_.field_of(sx['obj']) == fq
+                            tr = q.loop_trips(g_, lp, is_sz)
+                            # no other conjunct may cut the range short
+                            others = [x for x in g_.walk(lp['cond']) if g_.stmts[x]['k'] == 'MemberExpr' and g_.stmts[x].get('mk') == 'field' and g_.stmts[x].get('q') != fq]
+                            whole = tr is not None and all(tr[N] == (N, 0) for N in tr) and not others
+                        ctx.ob('C17.R1', '%s|reset-all@%s' % (short, g_.short), whole, 'the reset loop ranges over the whole of %s' % fd['n'] if whole else
+                               'the loop that resets the children of %s does not range over the whole container (its bound also depends on other state): a child that was started and '
+                               'is skipped keeps its finished/stopped state — the reset composite does not behave like a fresh one' % fd['n'], where=g_.loc(lp['i']))
             rd_ = method(prog, cname, 'isReady')
             ctx.ob('C17.R1', '%s|ready' % short, bool(rd_) and bool(refs_field(prog, rd_, fq)),
                    'isReady() consults %s' % fd['n'], where=rd_.loc(rd_.body) if rd_ else None)
@@ -345,6 +366,25 @@ def r5(ctx, prog):
     st_ = [a for a, rhs in q.assigns(hc, 'SerialAssembleAction::child_finish_func_')]
     ok = bool(st_) and any(any(c2.get('fn') == 'state' for c2 in q.subtree_calls(hc, c)) for a in st_ for c, k, b in hc.cfg.controlling_branches(q.pt(hc, a)))
     ctx.ob('C17.R5', '%s|stores-when-paused' % hc.name, ok, 'the child result is stored when the composite is paused', where=hc.loc(hc.body))
+    # "go on, it is yours" (false) is answered only while the composite is running: in every other state — stopped, finished, idle — the child's result is dropped
+    for r in q.returns(hc):
+        if q.return_const(hc, r) != 0:
+            continue
+        run_edge = False
+        for c, k, b in hc.cfg.controlling_branches(q.pt_or_term(hc, r)):
+            for l, o, rr in q.edge_rels(hc, c, k):
+                if l.endswith('state()') and o == '==' and rr.endswith('kRunning'):
+                    run_edge = True
+        ctx.ob('C17.R5', '%s|acts-only-when-running@%s' % (hc.name, hc.loc(r['i']).split(':')[-1]), run_edge, 'the handler is told to act only under state() == kRunning' if run_edge else
+               'handleChildFinishEvent() answers "not held back" without having established state() == kRunning: the result of a child that finished just before stop() (or after the '
+               'composite ended) is acted on — the next child or branch is started under a stopped parent', where=hc.loc(r['i']))
+    lc = method(prog, SER, 'onLastChildFinished', True)
+    fins = [c for c in lc.calls() if c.get('fn') == 'finish' and lc is prog.outermost(lc)]
+    for c in fins:
+        run_edge = any(l.endswith('state()') and o == '==' and rr.endswith('kRunning') for cnd, k, b in lc.cfg.controlling_branches(q.pt(lc, c)) for l, o, rr in q.edge_rels(lc, cnd, k)) or \
+            any(k == 1 and any(x.get('fn') == 'handleChildFinishEvent' for x in q.subtree_calls(lc, cnd)) for cnd, k, b in lc.cfg.controlling_branches(q.pt(lc, c)))
+        ctx.ob('C17.R5', '%s|finishes-only-when-running' % lc.name, run_edge, 'onLastChildFinished finishes the composite only while it is running (or behind the held-back test)',
+               where=lc.loc(c['i']))
     rs = method(prog, SER, 'onResume', True)
     rn = [st for st in rs.calls() if st.get('fn') == 'runNext' and any((rs.field_of(x) or '').endswith('child_finish_func_') for a in st.get('args', []) for x in rs.walk(a))]
     ctx.ob('C17.R5', '%s|replays' % rs.name, bool(rn), 'onResume() replays the held child result through loop_.runNext', where=rs.loc(rs.body))
